@@ -15,7 +15,7 @@ var effectFreePkgs = map[string]bool{
 	"runtime": true, "unicode/utf8": true, "unicode": true, "github.com/rcrowley/go-metrics": true, "time": true,
 	"github.com/pkg/errors": true, "bytes": true, "sort": true, "encoding/base64": true, "encoding/hex": true,
 	"github.com/godaddy/asherah/go/appencryption/pkg/log": true, "github.com/godaddy/asherah/go/securememory/log": true,
-	"log": true, "os": true, "io": true, "reflect": true, "regexp": true, "encoding/json": true, "hash/fnv": true,
+	"log": true, "os": true, "runtime/debug": true, "io": true, "reflect": true, "regexp": true, "encoding/json": true, "hash/fnv": true,
 }
 
 func pkgPathOfFunc(fn *ssa.Function) string {
@@ -111,6 +111,8 @@ func (un *Unit) execCall(fr *Frame, st *State, c *ssa.CallCommon, instr ssa.Inst
 		un.safety(st, fr, "nil-invoke", c.Method.Name(), not(eq("(i_tag "+recv.t+")", "0")), pos)
 		return un.invoke(fr, st, recv, c.Value.Type(), c.Method, args, argTypes(c), pos)
 	}
+	un.curCallArgs = c.Args
+	un.callFrame = fr
 	if callee := c.StaticCallee(); callee != nil {
 		var binds []Val
 		if mc, ok := c.Value.(*ssa.MakeClosure); ok {
@@ -700,11 +702,11 @@ func (un *Unit) modelCall(fr *Frame, st *State, callee *ssa.Function, full strin
 		// releases and re-acquires the associated lock: invariant out, havoc, invariant in
 		un.condWait(fr, st, args[0], pos)
 		return unit, true
-	case "(*sync.Cond).Broadcast", "(*sync.Cond).Signal":
-		return unit, true
 	case "sync.NewCond":
 		r := un.allocRef(st, "cond")
 		return Val{t: r}, true
+	case "(*sync.Cond).Broadcast", "(*sync.Cond).Signal":
+		return unit, true
 	case "(*sync.Once).Do":
 		et := ats[0].Underlying().(*types.Pointer).Elem()
 		p := un.placeOf(st, args[0], et)
@@ -827,9 +829,9 @@ func (un *Unit) modelCall(fr *Frame, st *State, callee *ssa.Function, full strin
 	case "fmt.Errorf":
 		r := un.allocRef(st, "err")
 		return Val{t: fmt.Sprintf("(mk_iface %d %s)", 100001, r)}, true
-	case "github.com/pkg/errors.New", "github.com/pkg/errors.Errorf", "github.com/pkg/errors.Wrap", "github.com/pkg/errors.Wrapf", "github.com/pkg/errors.WithMessage":
+	case "github.com/pkg/errors.New", "github.com/pkg/errors.Errorf", "github.com/pkg/errors.Wrap", "github.com/pkg/errors.Wrapf", "github.com/pkg/errors.WithMessage", "github.com/pkg/errors.WithStack", "github.com/pkg/errors.WithMessagef":
 		r := un.allocRef(st, "err")
-		if strings.HasSuffix(full, "Wrap") || strings.HasSuffix(full, "Wrapf") || strings.HasSuffix(full, "WithMessage") {
+		if strings.HasSuffix(full, "Wrap") || strings.HasSuffix(full, "Wrapf") || strings.HasSuffix(full, "WithMessage") || strings.HasSuffix(full, "WithStack") || strings.HasSuffix(full, "WithMessagef") {
 			// Wrap(nil) == nil
 			return Val{t: ite(eq("(i_tag "+args[0].t+")", "0"), "(mk_iface 0 0)", fmt.Sprintf("(mk_iface %d %s)", 100002, r))}, true
 		}
